@@ -12,8 +12,11 @@ pub fn is_send<X: Send>(_: &X) {}
 """
 
 RET = {"unit": ("", "()", "", ""), "owned": (" -> String", "String", "", ""), "borrow-deps": (" -> &'a str", "&'a str", "", ""),
-       "borrow-arg": (" -> &'a str", "&'a str", ", s: &'a str", ", s"), "generic": (" -> G", "u8", ", g: G", ", 7u8")}
-VALUE = {"unit": "", "owned": 'String::from("x")', "borrow-deps": "deps.name()", "borrow-arg": "s", "generic": "g"}
+       "borrow-arg": (" -> &'a str", "&'a str", ", s: &'a str", ", s"), "generic": (" -> G", "u8", ", g: G", ", 7u8"),
+       "tuple": (" -> (u8, String)", "(u8, String)", "", ""), "result": (" -> Result<u8, String>", "Result<u8, String>", "", ""),
+       "static": (" -> &'static str", "&'static str", "", "")}
+VALUE = {"unit": "", "owned": 'String::from("x")', "borrow-deps": "deps.name()", "borrow-arg": "s", "generic": "g",
+         "tuple": '(1u8, String::from("x"))', "result": "Ok(1u8)", "static": '"s"'}
 
 
 def body(ret, rc):
